@@ -1,7 +1,7 @@
 package couchbase
 
 // Fallback decider (bounded, property C07): the real getMinSeqNo on every replica vector of length 0..4
-// whose entries are absent or (vbUUID in {1,2}, seqNo in 0..3). Oracle from the property: 0 when every copy
+// whose entries are absent or (vbUUID in {0,1,2}, seqNo in 0..3). Oracle from the property: 0 when every copy
 // is absent or two present copies disagree on the vbUUID, otherwise the minimum persisted seqNo of the
 // present copies.
 
@@ -24,7 +24,7 @@ func TestVerifFallbackMinSeqNo(t *testing.T) {
 	}
 	var choices []rep
 	choices = append(choices, rep{absent: true, uuid: 1, seq: 2})
-	for u := uint64(1); u <= 2; u++ {
+	for u := uint64(0); u <= 2; u++ {
 		for s := uint64(0); s <= 3; s++ {
 			choices = append(choices, rep{false, u, s})
 		}
